@@ -345,6 +345,58 @@ claim("C20",
       "floating-point rounding of numpy sums; deep copy and LFP handling; 1-D slab/cylinder collections; getVolume/getMass/"
       "getVolumeFractions are inputs; median keys a few ulp apart and one-/two-letter look-alike types are oracle-only excluded points.")
 
+
+claim("C02",
+      "Lean proofs over exact rationals for one generic composite level instantiated for block, assembly and core and chained into "
+      "one statement: atoms counted as density x volume agree at component, block, assembly and core level for any symmetry "
+      "factors; mass = density x volume at every level; every composition setter (setNumberDensity, updateNumberDensities, "
+      "changeNDensByFactor, addMass/removeMass/setMass incl. component level in symmetry-cut blocks, setMassFracs) reads back at its "
+      "own level and leaves other nuclides and the volumes alone; nuclide selections (nuclide, element symbol, nested lists) are a "
+      "set-valued resolution whose mass is the sum over its distinct members; the derived (left-over) shape closes the block; mass "
+      "fractions sum to one and the densityTools conversions are mutual inverses. Tied on every run by mirroring the third-core "
+      "reference reactor (symmetry factors 1, 2, 3) and generated assemblies as exact rationals, applying seeded edit sequences "
+      "(zeros, trace values, voiding/refilling, element-level and refused edits, resize scripts in every query order) to both sides "
+      "and comparing every quantity after every edit, with an independent oracle on the real objects.",
+      "floating-point rounding (1e-9 relative); component volumes, atomic weights, symmetry factors and the element table are "
+      "inputs read from the real objects; LFP expansion not modelled; composition-dependent expansion not modelled (measured on "
+      "every run that no library material has it); two hypotheses exclude the listed findings.")
+claim("C03",
+      "Lean proofs for every expansion curve with 1 + dL/L > 0, every two-dimensional shape class and every temperature history: "
+      "telescoping expansion factor, path independence, area proportional to factor^2 for exactly each shape's expanding "
+      "dimensions, conservation of mass per unit height, dimension = cold x factor, hot-set read-back (also through retained "
+      "links), link following incl. chained and re-targeted links and reads at an explicit temperature, fixed dimensions for "
+      "fluids, the derived (left-over) shape. The per-class THERMAL_EXPANSION_DIMS table is regenerated from /repo on every run "
+      "and kernel-checked against the sets the homogeneity lemmas were proved for. Tied to the code on the full cross product shape "
+      "classes x all library material classes x seeded histories inside each validity range (exact bounds, 0.0 C), plus linked-"
+      "dimension configurations, feeding each material's measured curve as the parameter.",
+      "the correlations themselves are parameters; floating-point rounding (1e-9); math.sqrt in Helix is a parameter with a "
+      "scaling lemma; it is measured on every run that no library material's expansion depends on composition.",
+      "Lean 4 theorems + regenerated shape table obligations + correspondence check against /repo")
+claim("C17",
+      "Kernel-checked theorems about the settings model: write then read is the identity for all three styles on every setting "
+      "except the version stamp; the key set of each style is exact; refused values leave the previous value in place, on "
+      "assignment and on read; unexpired old names land on the new setting, expired ones are reported invalid, colliding renames "
+      "are refused, single-step renaming is complete when declaring settings are current; copies and originals are mutually "
+      "isolated under any assignment history. Tied by whole-registry correspondence (154 settings: 94 framework + 60 from four "
+      "built-in plugins, x schema-generated valid, falsy and near-miss values x three styles through the real YAML writer and "
+      "reader), generated rename registries with expiry dates, and modified() histories incl. object-valued settings.",
+      "the hypothesis schema(dump v) = v is discharged by test, not proof (table in the evidence); absence of rename chains is a "
+      "measured fact about the registry; ruamel and voluptuous; log-verbosity initialisation (two listed findings); the version stamp.")
+claim("C18",
+      "Kernel-checked, for every map size: the text-cell <-> index maps of all four ascii map classes are bijections; every reader "
+      "keeps every token at its computed index; Cartesian maps are drawn completely or refused and re-drawing what was read "
+      "reproduces the text; for every class a drawing reads back to exactly the contents (nothing lost, nothing invented) unless "
+      "the outline inferred from the data misses a cell or the reader re-infers other dimensions; complete third-core, full-core and "
+      "tips-up maps of any radius satisfy those conditions; block elevations are cumulative; linked dimensions resolve over any "
+      "well-founded link graph, cycles or unknown targets rejected; placement is exact, unknown specifiers refused; per-block lists "
+      "of unequal length refused; lattice multiplicity is the position count; flags from names follow the coded word rule. Tied by "
+      "exhaustive-small and generated correspondence with the ascii map classes in both directions, GridBlueprint save/reload, and "
+      "generated blueprint YAML (hex, Cartesian, pin lattices, material modifications, shared custom isotopics in all three forms) "
+      "built by the real factory and compared field by field with an independent reading.",
+      "hole cases violating the two conditions are the listed findings; duplicate block and specifier names are accepted "
+      "(findings); truncated-corner maps in the write direction, component construction, materials, thermal expansion and "
+      "composition are correspondence-only (independent Python evaluation); theta-RZ grids not generated.")
+
 NOT_YET = {}
 
 ALL = [f"C{n:02d}" for n in range(1, 21)]
